@@ -84,6 +84,30 @@ SelectAnswersOk(bits, x, vs) ==
     IN  /\ Len(vs) = n + 2
         /\ \A j \in 0..(n + 1) : SelectAnswerOk(bits, tab, x, j, vs[j + 1])
 
+\* ------------------------------------------- structured vectors (closed form)
+\* Huge vectors are never written out. A structured vector is given by parameters
+\*   n, P, R, X :  bit i (0 <= i < n) is 1  iff  (i % P \in R)  differs from  (i \in X)
+\* i.e. a periodic pattern with residue set R \subseteq 0..P-1, flipped at the few explicit positions X
+\* (sparse vector: P = 1, R = {}, X = the ones; its complement: P = 1, R = {0}, X = the zeros).
+\* Rank has a closed form; a select answer is verified through rank (the answer is unique).
+\* StructLemma in SuccinctMC: closed form = naive definition for all small parameters.
+SBase(P, R, i) == (i % P) \in R
+SBit(P, R, X, i) == IF SBase(P, R, i) # (i \in X) THEN 1 ELSE 0
+SBits(n, P, R, X) == [i \in 1..n |-> SBit(P, R, X, i - 1)]
+\* ones among positions 0..i of the periodic part
+SPerOnes(P, R, i) == ((i + 1) \div P) * Cardinality(R) + Cardinality({r \in R : r < (i + 1) % P})
+SRank1(P, R, X, i) ==
+    SPerOnes(P, R, i) + Cardinality({x \in X : x <= i /\ ~SBase(P, R, x)})
+                      - Cardinality({x \in X : x <= i /\ SBase(P, R, x)})
+SRank(n, P, R, X, x, i) ==
+    IF i < 0 \/ i >= n THEN None
+    ELSE IF x = 1 THEN SRank1(P, R, X, i) ELSE (i + 1) - SRank1(P, R, X, i)
+SSelectOk(n, P, R, X, x, j, v) ==
+    IF j <= 0 \/ j > SRank(n, P, R, X, x, n - 1) THEN v = None
+    ELSE /\ v \in 0..(n - 1)
+         /\ SBit(P, R, X, v) = x
+         /\ SRank(n, P, R, X, x, v) = j
+
 \* -------------------------------------------------- machine: blocks, words
 \* BB = bits per block (u8: 8), the last block is padded with zero bits
 NBlocks(bits, BB) == CeilDiv(Len(bits), BB)
